@@ -12,4 +12,4 @@ Definition era_date_ok (y0 m d : Z) : bool :=
 
 Lemma era_dates_ok :
   Zforall_range 0 400 (fun y0 => Zforall_range 1 12 (fun m => Zforall_range 1 31 (era_date_ok y0 m))) = true.
-Proof. vm_cast_no_check (eq_refl true). Qed.
+Proof. vm_compute. reflexivity. Qed.
